@@ -15,9 +15,12 @@ LEVEL = "fault_enumeration"
 PROG = ["init_handle(&h,cfg)", "set_parameter(h,valid)", "init(h)"]
 
 
-def run_one(exe, tdir, tag, args, timeout=60):
+PROG_DEC = ["dec_init_handle(&h,cfg)", "dec_set_parameter(h,cfg)", "dec_init(h)", "dec_frame(h,tu)"]
+
+
+def run_one(exe, tdir, tag, args, timeout=60, prog=None):
     pf = os.path.join(tdir, "c16_%s.prog" % tag)
-    open(pf, "w").write("\n".join(PROG) + "\n")
+    open(pf, "w").write("\n".join(prog or PROG) + "\n")
     rc, log = vlib.sh([exe, pf, pf + ".out"] + args, timeout=timeout)
     evs = []
     if os.path.exists(pf + ".out"):
@@ -41,7 +44,7 @@ def run_one(exe, tdir, tag, args, timeout=60):
 def run(res):
     res.cov["rule"] = ("fault points = (API call, K) with K the index of the fallible primitive that fails; quick: every K up to 60, the last 40, "
                        "3 invocations (first, middle, last) of every distinct call site and a seeded sample per call; thorough: every K of set_parameter and init and a 10% sample of init_handle; non-trivial = the fault fired")
-    res.assumptions += ["single fault per session", "encoder only; 64x64, preset 8, 2 logical processors",
+    res.assumptions += ["single fault per session", "encoder: 64x64, preset 8, 2 logical processors; decoder: a 64x64 stream, 1 and 3 threads, faults during init_handle, init and the first frame",
                         "the ledger covers everything allocated through the wrapped primitives"]
     r = vlib.tlc("CtorUnwind", "CtorUnwind.cfg", timeout=900)
     res.tlc_stats(r)
@@ -52,28 +55,39 @@ def run(res):
     if r2["ok"]:
         raise vlib.ModelFailure("vacuity guard: the leaky constructor kind does not violate FailedNewUnwound")
     exe = vlib.build_harness("api_replay", ["api_replay.c"], alloc=True)
+    enumerate_faults(res, exe, PROG, [0, 1, 2], ["--lp", "2"], "enc")
+    # decoder: creation, initialisation and the first frame (where the decoder allocates most of its session lazily)
+    from checks import apirun
+    dexe = apirun.dec_exe()
+    for threads in (1, 3):
+        enumerate_faults(res, dexe, PROG_DEC, [0, 2, 3], ["--pkts", apirun.dec_stream(), "--threads", str(threads)], "dec%d" % threads)
+    res.sample({"fault_point": {"call": PROG[2], "K": 17}})
+    res.sample({"fault_point": {"call": PROG[0], "K": 1}})
+
+
+def enumerate_faults(res, exe, PROG, idxs, base_args, tag):
     tdir = vlib.tmpdir()
     # 1. how many fallible primitives does each call issue?
     totals = {}
     site_ks = {}
     per_site = 3 if res.tier == "quick" else 9
-    for idx in range(3):
-        rc, log, evs = run_one(exe, tdir, "count%d" % idx, ["--count", str(idx), "--sites", str(per_site), "--lp", "2"], timeout=300)
+    for idx in idxs:
+        rc, log, evs = run_one(exe, tdir, "%scount%d" % (tag, idx), ["--count", str(idx), "--sites", str(per_site)] + base_args, timeout=300, prog=PROG)
         site_ks[idx] = sorted(set(k for e in evs if e["ev"] == "Site" for k in e["ks"]))
-        res.cov.setdefault("distinct_call_sites", {})[PROG[idx]] = len([e for e in evs if e["ev"] == "Site"])
+        res.cov.setdefault("distinct_call_sites", {})["%s %s" % (tag, PROG[idx])] = len([e for e in evs if e["ev"] == "Site"])
         c = [e for e in evs if e["ev"] == "Call" and e["idx"] == idx]
         if not c or c[0]["fallible"] < 0:
             raise vlib.ModelFailure("could not count fallible calls of %s" % PROG[idx])
         totals[idx] = c[0]["fallible"]
-    res.cov["fallible_calls"] = {PROG[i]: totals[i] for i in totals}
-    rng = random.Random(res.seed * 47 + 6)
+    res.cov.setdefault("fallible_calls", {}).update({"%s %s" % (tag, PROG[i]): totals[i] for i in totals})
+    rng = random.Random(res.seed * 47 + 6 + len(tag))
     points = []
     for idx, tot in totals.items():
         ks = set(range(1, min(tot, 60) + 1)) | set(range(max(1, tot - 40), tot + 1))
         if res.tier == "quick":
             ks |= set(rng.sample(range(1, tot + 1), min(tot, 110)))
         else:
-            if idx == 0:
+            if idx == 0 and tag == "enc":
                 ks |= set(rng.sample(range(1, tot + 1), min(tot, tot // 10)))
             else:
                 ks |= set(range(1, tot + 1))
@@ -84,7 +98,7 @@ def run(res):
 
     def one(pt):
         idx, k = pt
-        rc, log, evs = run_one(exe, tdir, "%d_%d" % (idx, k), ["--fail", "%d:%d" % (idx, k), "--lp", "2"])
+        rc, log, evs = run_one(exe, tdir, "%s_%d_%d" % (tag, idx, k), ["--fail", "%d:%d" % (idx, k)] + base_args, prog=PROG)
         return idx, k, rc, log, evs
     fired = 0
     seen = set()
@@ -99,7 +113,7 @@ def run(res):
     for idx, k, rc, log, evs in results:
         call = [e for e in evs if e["ev"] == "Call" and e["idx"] == idx and not e.get("auto")]
         did_fire = bool(call and call[0]["fired"])
-        res.case("%s K=%d" % (PROG[idx], k), nontrivial=did_fire or not call)
+        res.case("%s %s K=%d" % (tag, PROG[idx], k), nontrivial=did_fire or not call)
         fired += 1 if did_fire else 0
         site = next((sym.get(e["site"], "?") for e in evs if e.get("site") and e["site"] != "(nil)" and (e["ev"] in ("Crash", "Blocked") or e.get("fired"))), "?")
         if did_fire or any(e["ev"] in ("Crash", "Blocked") for e in evs):
@@ -109,11 +123,13 @@ def run(res):
 
         def viol(kind, txt, body=""):
             key = {"kind": kind, "call": PROG[idx], "site": site}
+            if tag != "enc":
+                key["threads"] = int(tag[3:])
             sig = (kind, idx, site)
             if sig in seen:
                 return
             seen.add(sig)
-            res.violation("%s: %s" % (desc, txt), body + "\nreplay: api_replay <program: %s> --fail %d:%d --lp 2\n" % (PROG, idx, k) +
+            res.violation("%s: %s" % (desc, txt), body + "\nreplay: %s <program: %s> --fail %d:%d %s\n" % (os.path.basename(exe), PROG, idx, k, " ".join(base_args)) +
                           "\n".join(json.dumps(e) for e in evs[-8:]), key=dict(key, k=k))
         if bad:
             viol("crash" if bad[0]["ev"] == "Crash" else "hang", "%s in %s" % ("CRASH (signal %s)" % bad[0].get("sig") if bad[0]["ev"] == "Crash" else "call does not return", bad[0].get("call")))
@@ -128,7 +144,6 @@ def run(res):
             outs = [e["txt"] for e in evs if e["ev"] == "Outstanding"]
             viol("leak", "after teardown %d memory blocks, %d mutexes, %d semaphores, %d threads remain (tasks %d->%d)" %
                  (led[0]["mem"], led[0]["mutex"], led[0]["sem"], led[0]["thread"], led[0]["tasks_before"], led[0]["tasks_after"]), "\n".join(outs))
-    res.cov["fault_points_fired"] = fired
-    res.cov["distinct_call_sites_failed"] = len(site_fns)
-    res.sample({"fault_point": {"call": PROG[2], "K": 17}})
-    res.sample({"fault_point": {"call": PROG[0], "K": 1}})
+    res.add("fault_points_fired", fired)
+    res.cov.setdefault("distinct_call_sites_failed", {})[tag] = len(site_fns)
+
